@@ -198,7 +198,7 @@ func (x *Exec) freshValue(name string, t types.Type, depth int) Value {
 	switch u := t.Underlying().(type) {
 	case *types.Basic:
 		if isString(t) {
-			if n, ok := x.shapeLen[name]; ok {
+			if n, ok := x.shapeOf(name); ok {
 				cs := x.freshConcreteSlice(name, types.Typ[types.Uint8], n, depth).(SliceV)
 				cs.Str = true
 				return cs
@@ -238,7 +238,7 @@ func (x *Exec) freshValue(name string, t types.Type, depth int) Value {
 		return PtrV{Obj: o, Nil: nilT}
 	case *types.Slice:
 		if s, ok := scalarSort(u.Elem()); ok && s.K == SBV {
-			if n, ok := x.shapeLen[name]; ok {
+			if n, ok := x.shapeOf(name); ok {
 				return x.freshConcreteSlice(name, u.Elem(), n, depth)
 			}
 			sv := x.freshSymSlice(name, s.W, u.Elem())
@@ -249,7 +249,7 @@ func (x *Exec) freshValue(name string, t types.Type, depth int) Value {
 			}
 			return sv
 		}
-		if n, ok := x.shapeLen[name]; ok {
+		if n, ok := x.shapeOf(name); ok {
 			return x.freshConcreteSlice(name, u.Elem(), n, depth)
 		}
 		return UnknownV{t, "slice of non-scalar without shape"}
@@ -762,9 +762,19 @@ var curExec *Exec
 func asSlice(v Value) SliceV {
 	switch s := v.(type) {
 	case SliceV:
+		if curExec != nil && !(s.Len.IsConst() && s.Off.IsConst() && s.Cap.IsConst() && s.Nil.IsConst()) {
+			// lengths decided by the path condition (e.g. the length of a decoded string once err == nil is known)
+			s.Len, s.Off, s.Cap, s.Nil = curExec.underPC(s.Len), curExec.underPC(s.Off), curExec.underPC(s.Cap), curExec.underPC(s.Nil)
+		}
 		return s
 	case *ChoiceV:
 		if curExec != nil {
+			// the choice may be decided by the path condition (e.g. after "if err != nil { return }")
+			if c := curExec.underPC(s.C); c.IsTrue() {
+				return asSlice(s.A)
+			} else if c.IsFalse() {
+				return asSlice(s.B)
+			}
 			return curExec.flattenSlice(s)
 		}
 	case UnknownV:
@@ -843,4 +853,37 @@ func (x *Exec) flattenSlice(c *ChoiceV) SliceV {
 	o := x.newObject(types.Typ[types.Uint8], "choice-view")
 	x.st.heap.m[o] = SymArrV{Arr: arr, Len: ln, W: w}
 	return SliceV{Obj: o, Off: bv64(0), Len: ln, Cap: ln, Nil: Ite(c.C, a.Nil, b.Nil), Str: a.Str}
+}
+
+// underPC simplifies t with the literals of the current path condition and the recorded facts.
+func (x *Exec) underPC(t *Term) *Term {
+	if t.IsConst() || x.st == nil {
+		return t
+	}
+	pc := x.st.pc
+	if x.pcSubstFor != pc {
+		m := map[int]*Term{}
+		for id, v := range x.facts {
+			m[id] = BoolC(v)
+		}
+		for _, c := range conj(pc) {
+			if c.Op == ONot {
+				m[c.Args[0].id] = False()
+			} else {
+				m[c.id] = True()
+			}
+		}
+		x.pcSubstFor, x.pcSubstMap = pc, m
+	}
+	if len(x.pcSubstMap) == 0 {
+		return t
+	}
+	return Subst(t, x.pcSubstMap)
+}
+
+// shapeOf looks up a shape clause; names are Go paths rooted at a parameter ("ue.Supi"):
+// the stars that mark pointees in generated names are ignored.
+func (x *Exec) shapeOf(name string) (int, bool) {
+	n, ok := x.shapeLen[strings.TrimLeft(name, "*")]
+	return n, ok
 }
